@@ -1,0 +1,11 @@
+//go:build verif
+
+package hashset
+
+// Contracts for the deductive checker in /verif (comment-only; compiled only under the verif tag).
+// ASSUMED: a new comparable hash set holds exactly the listed elements (see pkg/base/datastructures contracts).
+//@ func NewComparable
+//@   assumed
+//@   opt fresh=result
+//@   ensures forall y V :: sin(sset(result), y) == exists j int :: 0 <= j && j < len(xs) && box(xs[j]) == y
+//@   ensures scard(sset(result)) <= len(xs) && (len(xs) == 0 ==> scard(sset(result)) == 0)
